@@ -67,6 +67,16 @@ Paths == << [n |-> "val",        addr |-> FALSE, unexp |-> FALSE],
 B(x) == IF x THEN "true" ELSE "false"
 \* CanAddr CanSet CanInterface
 PathLine(p) == B(p.addr) \o " " \o B(p.addr /\ ~p.unexp) \o " " \o B(~p.unexp)
+\* strings: "converting a string to a slice of bytes yields the bytes of the string" and back; a conversion to a
+\* declared string type keeps the text; SetString needs a settable Value.  Printed as  <%v of the result> <%T>.
+StrCases == << [n |-> "str.named",     r |-> "hi main.CS"],
+               [n |-> "str.tobytes",   r |-> "[104 105] []uint8"],
+               [n |-> "str.frombytes", r |-> "hi string"],
+               [n |-> "str.set",       r |-> "b"],
+               [n |-> "str.setnamed",  r |-> "b main.CS"],
+               [n |-> "str.setunaddr", r |-> "PANIC"],
+               [n |-> "str.setunexp",  r |-> "PANIC"] >>
 EmitPaths == (op = "conv" /\ a = 1 /\ b = 1 /\ v = 1) =>
-   PrintT(ToJson([op |-> "paths", lines |-> [i \in 1..Len(Paths) |-> [n |-> Paths[i].n, r |-> PathLine(Paths[i])]]]))
+   PrintT(ToJson([op |-> "paths", lines |-> [i \in 1..Len(Paths) |-> [n |-> "path." \o Paths[i].n, r |-> PathLine(Paths[i])]]
+                                            \o StrCases]))
 =============================================================================
